@@ -104,6 +104,91 @@ def op_mk_tt(w, ins):
 ops.register('mk_tt', op_mk_tt, 'C02')
 
 
+def op_mk_struct(w, ins):
+    """A handle on a structured, order-sensitive function of the declared
+    names (random truth tables are nearly order-insensitive, so sifting never
+    meets a diagram that doubles while one variable travels): sums of paired
+    products, comparators, counters modulo 3, and a multiplexer of two
+    counters over interleaved groups."""
+    import random
+    m = ins.get('m', 0)
+    g = w.mgrs[m]
+    api = g.api
+    if g.flavor == 'raw' and api.configure()['reordering']:
+        return 'skip'       # intermediates are held across calls as integers
+    dec = list(declared(w, m))
+    if len(dec) < 4:
+        return 'skip'
+    rr = random.Random(ins['seed'])
+    T = w.tt
+    ks = dec[:]
+    rr.shuffle(ks)
+    kind = ins['kind']
+
+    def build():
+        V = {k: (api.var(w.names[k]), T.var[k]) for k in ks}
+
+        def AND(x, y):
+            return (api.apply('and', x[0], y[0]), x[1] & y[1])
+
+        def OR(x, y):
+            return (api.apply('or', x[0], y[0]), x[1] | y[1])
+
+        def XOR(x, y):
+            return (api.apply('xor', x[0], y[0]), x[1] ^ y[1])
+
+        def NOT(x):
+            return (api.apply('not', x[0]), T.neg(x[1]))
+
+        def ITE(c, x, y):
+            return (api.ite(c[0], x[0], y[0]), T.ite(c[1], x[1], y[1]))
+        TRUE = (api.true, T.mask)
+        FALSE = (api.false, 0)
+
+        def counter(group, r):
+            c = [TRUE, FALSE, FALSE]
+            for k in group:
+                c = [ITE(V[k], c[(j - 1) % 3], c[j]) for j in range(3)]
+            return c[r]
+        if kind == 'pairs':
+            acc = FALSE
+            for i in range(0, len(ks) - 1, 2):
+                t = AND(V[ks[i]], V[ks[i + 1]]) if rr.random() < 0.7 else NOT(XOR(V[ks[i]], V[ks[i + 1]]))
+                acc = OR(acc, t) if rr.random() < 0.7 else XOR(acc, t)
+            return acc
+        if kind == 'cmp':
+            # x < y, bits paired (x_i, y_i), most significant pair first
+            lt, eq = FALSE, TRUE
+            for i in range(0, len(ks) - 1, 2):
+                x, y = V[ks[i]], V[ks[i + 1]]
+                lt = OR(lt, AND(eq, AND(NOT(x), y)))
+                eq = AND(eq, NOT(XOR(x, y)))
+            return lt if rr.random() < 0.5 else eq
+        if kind == 'count':
+            return counter(ks[:rr.randint(3, len(ks))], rr.randrange(3))
+        # multiplexer of two counters over the groups at even and odd levels
+        order = [k for k in (w.name_idx[nm] for nm in w.snapshot(m).order) if k in V]
+        sel, rest = order[0], order[1:]
+        return ITE(V[sel], counter(rest[0::2], rr.randrange(3)), counter(rest[1::2], rr.randrange(3)))
+    ok, v = call(w, build)
+    if not ok:
+        w.fail('exception:' + v[0], f'building a structured function ({kind}) raised {v[1]}', ops.owner_tags(w, 'C01'))
+    ref, want = v
+    del v
+    w.stats['mk_struct'] += 1
+    take_result(w, m, True, ref, want, 'C01', True, f'mk_struct {kind}')
+
+
+ops.register('mk_struct', op_mk_struct, 'C01')
+
+
+def gen_mk_struct(w, r, cfg):
+    return dict(op='mk_struct', kind=r.choice(['pairs', 'cmp', 'count', 'mux', 'mux']), seed=r.randrange(1 << 30))
+
+
+gen.register('mk_struct', gen_mk_struct)
+
+
 def op_inflate(w, ins):
     """A manager that has been used for a while: node numbers well above 256
     are in use (CPython shares small integers only, tables have been resized,
